@@ -1461,18 +1461,19 @@ class HttpHeaderFieldValueSetCookie(FieldValueBase):  # pylint: disable=too-many
         parser = ParserText(parsable)
 
         parser.parse_string_until_separator('name', '=')
-        parser.parse_separator('=')
-        parser.parse_string_until_separator_or_end('value', '; ')
+        parser.parse_string('separator', '=')
+        parser.parse_separator(' \t', min_length=0)
+        parser.parse_string_until_separator_or_end('value', '; \t')
 
-        parser.parse_separator(' ', min_length=0)
+        parser.parse_separator(' \t', min_length=0)
         if parser.unparsed:
             parser.parse_separator(';')
-        parser.parse_separator(' ', min_length=0)
+        parser.parse_separator(' \t', min_length=0)
 
         parser.parse_parsable('params', HttpHeaderFieldValueSetCookieParams)
 
         attributes = {
-            'name': parser['name'],
+            'name': parser['name'].rstrip(' \t'),
             'value': parser['value'],
         }
         params = parser['params']
